@@ -13,7 +13,9 @@ FAMILY = ["empty", "with only", "with+autoescape only", "raw text", "arithmetic"
           "import/from import", "set block + filter block", "break/continue/cycle", "recursive loop", "filters", "autoescape/with",
           "include lists/ignore missing", "macro>include>macro", "extends+scoped block+loop+include", "self.block()", "namespace",
           "tests/defined", "slices/literals", "dict items/for-else", "macro defaults/kwargs", "short-circuit", "dynamic extends+super loop",
-          "error at end (undefined)", "error inside include"]
+          "error at end (undefined)", "error inside include",
+          "super() as operand (position k%6, chain depth m%3+1)", "super() in three operand positions per level", "macro/self.block()/import in value position",
+          "include and call block inside used captures", "host function/filter/test re-entering via macros", "custom formatter re-entering", "super() in value position + include + host callback"]
 NPROC = 12
 
 
